@@ -340,7 +340,7 @@ def h_json(ch: Chooser, vec: list, maxf: int):
         keys = list(data)
         faults = [("none",), ("empty-dict",), ("list-instead",), ("scalar-instead",), ("null",), ("list-of-scalars",), ("list-of-lists",), ("list-of-nulls",), ("derived-shape",)]
         for k in keys:
-            faults += [("unwrap-key", k), ("delete-key", k), ("null-value", k), ("dict-value", k), ("list-value", k), ("str-value", k), ("int-value", k), ("nested-list", k), ("rename-key", k)]
+            faults += [("unwrap-key", k), ("delete-key", k), ("null-value", k), ("dict-value", k), ("list-value", k), ("str-value", k), ("int-value", k), ("nested-list", k), ("empty-nested-list", k), ("rename-key", k)]
         fi = ch.choose(len(faults), "fault")
         f = faults[fi]
         d = dict(data)
@@ -380,6 +380,8 @@ def h_json(ch: Chooser, vec: list, maxf: int):
             d[f[1]] = "not a value !"
         elif f[0] == "int-value":
             d[f[1]] = 12345
+        elif f[0] == "empty-nested-list":
+            d[f[1]] = [[]]
         elif f[0] == "nested-list":
             d[f[1]] = [[{"a": [1]}]]
         elif f[0] == "rename-key":
